@@ -269,6 +269,11 @@ func (c *fileCtx) rewriteSelect(cur *astutil.Cursor, n *ast.SelectStmt) {
 		tok  token.Token
 		body []ast.Stmt
 	}
+	type sendCase struct {
+		ch, val ast.Expr
+		body    []ast.Stmt
+	}
+	var sends []sendCase
 	var cases []cs
 	var defBody []ast.Stmt
 	hasDef := false
@@ -285,7 +290,11 @@ func (c *fileCtx) rewriteSelect(cur *astutil.Cursor, n *ast.SelectStmt) {
 				cases = append(cases, cs{ch: ce.Args[0], body: cc.Body})
 				continue
 			}
-			c.errf(cc.Pos(), "select with a send case is not supported")
+			if ce, ok := isSimCall(st.X, "Send"); ok {
+				sends = append(sends, sendCase{ch: ce.Args[0], val: ce.Args[1], body: cc.Body})
+				continue
+			}
+			c.errf(cc.Pos(), "unsupported select case")
 			return
 		case *ast.AssignStmt:
 			if len(st.Rhs) == 1 {
@@ -304,6 +313,19 @@ func (c *fileCtx) rewriteSelect(cur *astutil.Cursor, n *ast.SelectStmt) {
 			c.errf(cc.Pos(), "unsupported select case")
 			return
 		}
+	}
+	if len(sends) > 0 {
+		// supported form: a non-blocking send, `select { case ch <- v: A; default: B }`
+		if len(sends) != 1 || len(cases) != 0 || !hasDef {
+			c.errf(n.Pos(), "select with a send case is only supported as a single non-blocking send with default")
+			return
+		}
+		sw := &ast.SwitchStmt{Body: &ast.BlockStmt{List: []ast.Stmt{
+			&ast.CaseClause{List: []ast.Expr{call(sel("simrt", "TrySend"), sends[0].ch, sends[0].val)}, Body: sends[0].body},
+			&ast.CaseClause{List: nil, Body: defBody},
+		}}}
+		cur.Replace(sw)
+		return
 	}
 	if len(cases) == 0 || len(cases) > 4 {
 		c.errf(n.Pos(), "select with %d receive cases is not supported", len(cases))
